@@ -2,7 +2,7 @@
 import re
 from .model import *
 from .facts import Site, op_place, Call
-from .locks import acquisitions, held_at
+from .locks import acquisitions, held_at, closure_held_context
 
 EXPLANATION = ("Lock-based atomicity argument whose premises are all structural and are checked on MIR: every exit path owns a lifecycle guard whose "
                "cleanup always (armed edge -> exit must-pass) runs Stopping -> terminate(subtree) -> notify -> unlink -> Stopped in that order; the guard "
@@ -176,21 +176,46 @@ def r3(run, db):
                     n += 1
                     run.saw(1, f)
                     tl = held_at(f, c.site, TREE_RX, acqs)
+                    owner = f.id
+                    if tl is None and f.kind == "closure":
+                        # a closure invoked in place (`cells.iter().for_each(|child| ..)`) runs under the locks its creator holds
+                        ctx = closure_held_context(db, f, TREE_RX)
+                        if ctx is not None:
+                            tl = ctx[1]
+                            owner = db.root_of(f).id
                     what = "child map" if is_child else "supervisor slot"
                     run.check(tl is not None, "write-under-tree-lock:%s:%s" % (f.id, what), "mutable access to a %s in %s happens while the tree lock is held" % (what, f.id),
                               "%s mutates a %s without holding the tree lock: link/exit atomicity is lost" % (f.id, what), c.where())
-                    run.check(f.id.endswith(allowed), "writer:%s" % f.id, "%s is one of the three tree writers" % f.id, "%s writes the supervision tree but is not link/unlink/take_children" % f.id, c.where())
+                    run.check(owner.endswith(allowed), "writer:%s" % f.id, "%s is one of the three tree writers" % f.id, "%s writes the supervision tree but is not link/unlink/take_children" % f.id, c.where())
     run.anchor("tree mutation sites", n, 6)
 
 
+def _is_id_eq(fn, x):
+    """x is `a.get_id() == b.get_id()`"""
+    if not x.matches(r"PartialEq>::eq$|PartialEq::eq$|PartialEq>::ne$|PartialEq::ne$"):
+        return False
+    n = 0
+    for a in x.args[:2]:
+        if any(r["k"] == "call" and r["call"].is_("get_id") for r in fn.origins(a)):
+            n += 1
+    return n == 2
+
+
 def id_tests(db, fn):
-    """`opt.is_some_and(|x| x.get_id() == y.get_id())`-style identity tests: list of dict(call, true_edge, false_edge, subject_lock)"""
+    """identity tests `slot holds the cell whose id is y.get_id()`: list of dict(call, true_edge, false_edge, subject).
+    Forms: `opt.is_some_and(|x| x.get_id() == y.get_id())`, `opt.map_or(false, |x| ..)`, and the comparison written out in the
+    body (`match opt { Some(x) => x.get_id() == y.get_id(), None => false }`, also bound to a name before it is tested)."""
     out = []
+    through = lambda cc: 0 if cc.matches(r"Option::<T>::as_ref$|Deref>::deref$|Deref::deref$|Result::<T, E>::unwrap$") else None
     for c in fn.calls():
-        if not c.matches(r"Option::<T>::is_some_and$"):
+        if c.matches(r"Option::<T>::is_some_and$"):
+            clarg = c.args[1]
+        elif c.matches(r"Option::<T>::map_or$") and fn.value_consts(c.args[1]) == ["false"]:
+            clarg = c.args[2]
+        else:
             continue
         ok = False
-        for r in fn.origins(c.args[1]):
+        for r in fn.origins(clarg):
             if r["k"] == "agg" and r["stmt"]["rv"].get("kind") == "closure":
                 cl = db.fns.get(r["stmt"]["rv"]["def"])
                 if cl is not None:
@@ -199,8 +224,22 @@ def id_tests(db, fn):
                     rets = any(cl.origins([0, []]) and rr["k"] == "call" and rr["call"].matches(r"PartialEq") for rr in cl.origins([0, []]))
                     ok = len(eqs) == 1 and len(ids) == 2 and rets
         if ok:
-            subj = " ".join(str(x) for r in fn.origins(c.args[0], through=lambda cc: 0 if cc.matches(r"Option::<T>::as_ref$|Deref>::deref$|Deref::deref$|Result::<T, E>::unwrap$") else None) for x in ([r["call"].name] if r["k"] == "call" else []))
+            subj = " ".join(str(x) for r in fn.origins(c.args[0], through=through) for x in ([r["call"].name] if r["k"] == "call" else []))
             out.append({"call": c, "true_edge": true_edge(fn, c), "false_edge": false_edge(fn, c), "subject": subj})
+    for c in fn.calls():
+        if not _is_id_eq(fn, c) or c.matches(r"::ne$"):
+            continue
+        te, fe = and_flag_edges(fn, c)
+        if not (te and fe):
+            continue
+        subj = []
+        for a in c.args[:2]:
+            for r in fn.origins(a):
+                if r["k"] == "call" and r["call"].is_("get_id"):
+                    for r2 in fn.origins(r["call"].args[0], through=through):
+                        if r2["k"] == "call":
+                            subj.append(r2["call"].name)
+        out.append({"call": c, "true_edge": te, "false_edge": fe, "subject": " ".join(subj)})
     return out
 
 
@@ -279,7 +318,7 @@ def r5(run, db):
             run.check(t["false_edge"] and link.edge_dominates(t["false_edge"], c.site), "link|replace-on-different", "supervisor slot replaced only when the supervisor changes", None, c.where())
         # true edge: insert then return true
         te = t["true_edge"]
-        run.check(te and any(link.edge_dominates(te, c.site) for c in ins), "link|same-sup-reinserts", "the same-supervisor path re-inserts the child (idempotent link keeps membership)", None, link.where())
+        run.check(te and any(link.edge_dominates(te, c.site) or link.dominates(c.site, Site(te[0], len(link.blocks[te[0]]["stmts"]))) for c in ins), "link|same-sup-reinserts", "the same-supervisor path re-inserts the child (idempotent link keeps membership)", None, link.where())
     # re-parent path: insert & replace & conditional remove all on the path
     if rep and ins:
         run.check(any(link.dominates(c.site, rep[0].site) for c in ins), "link|insert-before-replace", "insert into the new set dominates the slot replacement", None, link.where())
@@ -300,13 +339,15 @@ def r5(run, db):
     # the slot is cleared and the child removed: both on the matched path
     clears = [s for site, s in unlink.stmts() if s["k"] == "assign" and s["lhs"][1] == ["*"] and "Option<ractor::actor::actor_cell::ActorCell>" in unlink.local_ty(s["lhs"][0])]
     run.check(len(clears) >= 1 and any(c.matches("HashMap") for c in writes), "unlink|two-sided", "unlink removes the child from the set and clears the slot (two-sided update)", "unlink is one-sided", unlink.where())
-    # take_children
-    its = id_tests(db, tk)
+    # take_children (the per-child part may live in a closure run in place: `cells.iter().for_each(|child| ..)`)
+    fam = [g for g in db.family(tk.id) if g.kind in ("fn", "method", "closure")]
+    its = [(g, t) for g in fam for t in id_tests(db, g)]
     run.check(len(its) == 1, "take|id-test", "take_children clears a child's slot only if it still points at the parent", "take_children has %d identity tests" % len(its), tk.where())
     if its:
-        dm = [c for c in tk.calls() if c.matches(r"DerefMut>::deref_mut$") and tk.in_cycle(c.site)]
+        g, t = its[0]
+        dm = [c for c in g.calls() if c.matches(r"DerefMut>::deref_mut$") and (g.in_cycle(c.site) or g.kind == "closure")]
         for c in dm:
-            run.check(its[0]["true_edge"] and tk.edge_dominates(its[0]["true_edge"], c.site), "take|clear-on-match", "slot cleared on the true edge of the identity test", None, c.where())
+            run.check(t["true_edge"] and g.edge_dominates(t["true_edge"], c.site), "take|clear-on-match", "slot cleared on the true edge of the identity test", None, c.where())
         run.anchor("take_children slot clears", len(dm), 1)
 
 
@@ -329,7 +370,7 @@ def r6(run, db):
     okext = False
     for c in ext:
         for a in c.args[1:]:
-            rts = t.origins(a, through=lambda cc: 0 if cc.matches(r"IntoIterator>::into_iter$|Iterator::rev$|IntoIterator::into_iter$") else None)
+            rts = t.origins(a, through=lambda cc: 0 if cc.matches(r"IntoIterator>::into_iter$|Iterator::rev$|IntoIterator::into_iter$|Iterator>::next$|Iterator::next$|DoubleEndedIterator>::next_back$|Vec::<T, A>::drain$|Iterator::(map|filter|chain|collect)$") else None)
             if any(r["k"] == "call" and r["call"].bb == tk[0].bb for r in rts):
                 okext = True
     run.check(okext, "children-pushed", "the taken children are pushed onto the worklist", "taken children are not fed back into the worklist", t.where())
